@@ -1,5 +1,6 @@
 import CGV.Props.C04
 import CGV.Props.C04Tree
+import CGV.Props.C04Ring
 #print axioms CGV.C04.C04_read_chain
 #print axioms CGV.C04.matches_chain
 #print axioms CGV.C04.fold_tail
@@ -12,3 +13,8 @@ import CGV.Props.C04Tree
 #print axioms CGV.C04.treeGraph_ofChain
 #print axioms CGV.stepNode_tree
 #print axioms CGV.closeLoop_pops
+#print axioms CGV.C04.scan_marks
+#print axioms CGV.C04.stepNode_ring
+#print axioms CGV.C04.matches_ring
+#print axioms CGV.C04.fold_rtail
+#print axioms CGV.C04.C04_read_ring
